@@ -9,22 +9,98 @@ static inline int S_iso_year_of(int gy, int gyd)
 	if (gyd >= S_YDAYS(gy) + 1 + S_HANG(gy + 1)) return gy + 1;
 	return gy;
 }
-/* print record as dt_strfd prepares it, with the lazily filled fields m, d in ANY of their reachable states:
- * zero (not filled in yet) or the true value */
-#define REC_Y(d, that) ((that).typ == DT_YWD ? ((d)->flags.real_y_in_q == 1 && (d)->q == (int)(that).ywd.y) : ((d)->flags.real_y_in_q == 0 && (d)->y == GY_d(that)))
-#define REC_MD(d, that) (((d)->m == 0 || (d)->m == S_mon_of_yday(GY_d(that), GYD_d(that))) && \
-	((d)->d == 0 || (d)->d == ((that).typ == DT_YD ? GYD_d(that) : S_mday_of_yday(GY_d(that), GYD_d(that)))) && \
-	(d)->flags.d_dcnt_p == ((that).typ == DT_YD ? 1u : 0u))
-/* %G (year specifier with the ISO flag, 4 digits): prints the ISO 8601 year of the day for every representation and
- * every state of the lazily filled fields */
-size_t __strfd_card(char *buf, size_t bsz, struct dt_spec_s s, struct strpd_s *d, struct dt_d_s that)
-VERIF_CONTRACT(__CPROVER_requires(bsz == 16 && __CPROVER_is_fresh(buf, 16) && __CPROVER_is_fresh(d, sizeof(*d)))
-	__CPROVER_requires(s.spfl == DT_SPFL_N_YEAR && s.abbr == DT_SPMOD_LONG && s.tai == 1 && s.pad == DT_SPPAD_NONE && s.rom == 0 && s.ord == 0)
-	__CPROVER_requires(V_d(that) && CIVIL_T(that.typ) && REC_Y(d, that) && REC_MD(d, that))
-	__CPROVER_ensures(__CPROVER_return_value == 4 &&
-		(buf[0] - '0') * 1000 + (buf[1] - '0') * 100 + (buf[2] - '0') * 10 + (buf[3] - '0') == S_iso_year_of(GY_d(that), GYD_d(that)) &&
-		buf[0] >= '0' && buf[0] <= '9' && buf[1] >= '0' && buf[1] <= '9' && buf[2] >= '0' && buf[2] <= '9' && buf[3] >= '0' && buf[3] <= '9')
-	__CPROVER_assigns(__CPROVER_object_upto(buf, 16), *d));
+/* ---- the print record (struct strpd_s) as dt_strfd()/dt_strfdt() prepare it for a value `that', in EVERY state the lazy fill-in
+ * of __strfd_card can bring it to.  Derived from the preparation code in lib/date-core.c:dt_strfd (per type):
+ *   ymd  : y m d set                         ymcw : y m c w set, d == 0 until a specifier asks for it
+ *   ywd  : y (Gregorian year) q (ISO year) c w set by __prep_strfd_ywd, m == d == 0 until asked for
+ *   yd   : y set, d == day of the YEAR with flags.d_dcnt_p, m == 0; the first %m/%d/%F turns (m, d) into (month, day of month)
+ *   daisy: y m d set by __prep_strfd_daisy
+ * REC is the invariant every specifier may rely on and has to re-establish; because it does not mention which specifiers ran
+ * before, a specifier that prints the right text under REC prints it whatever precedes it in the format. */
+/* (civil representations; day counts have their own, cheaper formulation below: CBMC does not fold the representation inside contract
+ * clauses, and the year-of-day-number function in every clause exhausts 12 GB) */
+#define R_Y(that) GY_d(that)
+#define R_YD(that) GYD_d(that)
+#define R_MON(that) S_mon_of_yday(R_Y(that), R_YD(that))
+#define R_MDAY(that) S_mday_of_yday(R_Y(that), R_YD(that))
+#define STRF_T(t) (CIVIL_T(t))
+#define REC_Y(d, that) ((that).typ == DT_YWD ? ((d)->flags.real_y_in_q == 1 && (d)->q == (int)(that).ywd.y && (d)->y == R_Y(that)) : ((d)->flags.real_y_in_q == 0 && (d)->y == R_Y(that)))
+#define REC_MD(d, that) ((d)->flags.d_dcnt_p == ((that).typ == DT_YD ? 1u : 0u) && (d)->flags.bizda == 0 && \
+	((that).typ == DT_YMD ? ((d)->m == R_MON(that) && (d)->d == R_MDAY(that)) : \
+	 (that).typ == DT_YMCW ? ((d)->m == R_MON(that) && ((d)->d == 0 || (d)->d == R_MDAY(that))) : \
+	 (that).typ == DT_YWD ? (((d)->m == 0 && (d)->d == 0) || ((d)->m == R_MON(that) && (d)->d == R_MDAY(that))) : \
+	 (((d)->m == 0 && (d)->d == R_YD(that)) || ((d)->m == R_MON(that) && (d)->d == R_MDAY(that)))))
+#define REC(d, that) (REC_Y(d, that) && REC_MD(d, that))
+#define ISDG(c) ((c) >= '0' && (c) <= '9')
+#define DG2(b) (((b)[0] - '0') * 10 + ((b)[1] - '0'))
+#define DG3(b) (((b)[0] - '0') * 100 + ((b)[1] - '0') * 10 + ((b)[2] - '0'))
+#define DG4(b) (((b)[0] - '0') * 1000 + ((b)[1] - '0') * 100 + ((b)[2] - '0') * 10 + ((b)[3] - '0'))
+#define ALLDG2(b) (ISDG((b)[0]) && ISDG((b)[1]))
+#define ALLDG3(b) (ISDG((b)[0]) && ISDG((b)[1]) && ISDG((b)[2]))
+#define ALLDG4(b) (ISDG((b)[0]) && ISDG((b)[1]) && ISDG((b)[2]) && ISDG((b)[3]))
+/* the specifiers under contract, all unmodified (no padding / ordinal / roman / bizda modifiers) */
+#define SP_PLAIN(s) ((s).pad == DT_SPPAD_NONE && (s).rom == 0 && (s).ord == 0 && (s).bizda == 0)
+#define SP_G(s) ((s).spfl == DT_SPFL_N_YEAR && (s).abbr == DT_SPMOD_LONG && (s).tai == 1 && SP_PLAIN(s))   /* %G */
+#define SP_Y(s) ((s).spfl == DT_SPFL_N_YEAR && (s).abbr == DT_SPMOD_LONG && (s).tai == 0 && SP_PLAIN(s))   /* %Y */
+#define SP_M(s) ((s).spfl == DT_SPFL_N_MON && SP_PLAIN(s))                                                  /* %m */
+#define SP_D(s) ((s).spfl == DT_SPFL_N_DCNT_MON && SP_PLAIN(s))                                             /* %d */
+#define SP_J(s) ((s).spfl == DT_SPFL_N_DCNT_YEAR && SP_PLAIN(s))                                            /* %j */
+#define SP_F(s) ((s).spfl == DT_SPFL_N_DSTD && SP_PLAIN(s))                                                 /* %F */
+/* each of them prints the same text for the same day in every representation and every record state, and leaves the record
+ * in a state the next specifier can rely on.  One small contract per specifier (dfcc: --enforce-contract __strfd_card/<name>):
+ * a single contract with all cases does not fit into memory (12 GB) in CBMC's propositional reduction. */
+#define STRF_COMMON(s, SP) \
+	__CPROVER_requires(bsz == 16 && __CPROVER_is_fresh(buf, 16) && __CPROVER_is_fresh(d, sizeof(*d))) \
+	__CPROVER_requires(SP(s) && V_d(that) && STRF_T(that.typ) && REC(d, that)) \
+	__CPROVER_ensures(REC(d, that)) \
+	__CPROVER_assigns(__CPROVER_object_upto(buf, 16), *d)
+#define STRF_SIG(name) size_t name(char *buf, size_t bsz, struct dt_spec_s s, struct strpd_s *d, struct dt_d_s that)
+STRF_SIG(C_strfd_G) VERIF_CONTRACT(STRF_COMMON(s, SP_G)
+	__CPROVER_ensures(__CPROVER_return_value == 4 && ALLDG4(buf) && DG4(buf) == S_iso_year_of(R_Y(that), R_YD(that))));
+STRF_SIG(C_strfd_Y) VERIF_CONTRACT(STRF_COMMON(s, SP_Y)
+	__CPROVER_ensures(__CPROVER_return_value == 4 && ALLDG4(buf) && DG4(buf) == R_Y(that)));
+STRF_SIG(C_strfd_M) VERIF_CONTRACT(STRF_COMMON(s, SP_M)
+	__CPROVER_ensures(__CPROVER_return_value == 2 && ALLDG2(buf) && DG2(buf) == R_MON(that)));
+STRF_SIG(C_strfd_D) VERIF_CONTRACT(STRF_COMMON(s, SP_D)
+	__CPROVER_ensures(__CPROVER_return_value == 2 && ALLDG2(buf) && DG2(buf) == R_MDAY(that)));
+STRF_SIG(C_strfd_J) VERIF_CONTRACT(STRF_COMMON(s, SP_J)
+	__CPROVER_ensures(__CPROVER_return_value == 3 && ALLDG3(buf) && DG3(buf) == R_YD(that)));
+STRF_SIG(C_strfd_F) VERIF_CONTRACT(STRF_COMMON(s, SP_F)
+	__CPROVER_ensures(__CPROVER_return_value == 10 && ALLDG4(buf) && DG4(buf) == R_Y(that) && buf[4] == '-' &&
+		ALLDG2(buf + 5) && DG2(buf + 5) == R_MON(that) && buf[7] == '-' && ALLDG2(buf + 8) && DG2(buf + 8) == R_MDAY(that)));
+/* day counts (what dseq hands to the formatter for day steps): __prep_strfd_daisy has filled in the (year, month, day) of the day
+ * number -- R_ymd_of is the relation __daisy_to_ymd is proved to satisfy -- and the specifiers print exactly those */
+#define REC_DSY(d, that) ((d)->flags.real_y_in_q == 0 && (d)->flags.d_dcnt_p == 0 && (d)->flags.bizda == 0 && R_ymd_of((int)(that).daisy, (d)->y, (d)->m, (d)->d))
+#define STRF_COMMON_DSY(s, SP) \
+	__CPROVER_requires(bsz == 16 && __CPROVER_is_fresh(buf, 16) && __CPROVER_is_fresh(d, sizeof(*d))) \
+	__CPROVER_requires(SP(s) && that.typ == DT_DAISY && that.daisy >= 1 && that.daisy <= S_MAX_DAISY && REC_DSY(d, that)) \
+	__CPROVER_ensures(REC_DSY(d, that)) \
+	__CPROVER_assigns(__CPROVER_object_upto(buf, 16), *d)
+STRF_SIG(C_strfd_Y_DSY) VERIF_CONTRACT(STRF_COMMON_DSY(s, SP_Y) __CPROVER_ensures(__CPROVER_return_value == 4 && ALLDG4(buf) && DG4(buf) == d->y));
+STRF_SIG(C_strfd_M_DSY) VERIF_CONTRACT(STRF_COMMON_DSY(s, SP_M) __CPROVER_ensures(__CPROVER_return_value == 2 && ALLDG2(buf) && DG2(buf) == d->m));
+STRF_SIG(C_strfd_D_DSY) VERIF_CONTRACT(STRF_COMMON_DSY(s, SP_D) __CPROVER_ensures(__CPROVER_return_value == 2 && ALLDG2(buf) && DG2(buf) == d->d));
+STRF_SIG(C_strfd_J_DSY) VERIF_CONTRACT(STRF_COMMON_DSY(s, SP_J) __CPROVER_ensures(__CPROVER_return_value == 3 && ALLDG3(buf) && DG3(buf) == S_YDAY(d->y, d->m, d->d)));
+STRF_SIG(C_strfd_F_DSY) VERIF_CONTRACT(STRF_COMMON_DSY(s, SP_F)
+	__CPROVER_ensures(__CPROVER_return_value == 10 && ALLDG4(buf) && DG4(buf) == d->y && buf[4] == '-' &&
+		ALLDG2(buf + 5) && DG2(buf + 5) == d->m && buf[7] == '-' && ALLDG2(buf + 8) && DG2(buf + 8) == d->d));
+
+/* lazy fill-in helper: month and day of month of the day, for every civil representation */
+static struct __md_s dt_get_md(struct dt_d_s that)
+VERIF_CONTRACT(__CPROVER_requires(V_d(that) && CIVIL_T(that.typ))
+	__CPROVER_ensures((int)__CPROVER_return_value.m == R_MON(that) && (int)__CPROVER_return_value.d == R_MDAY(that))
+	__CPROVER_assigns());
+
+/* preparation of the record for ISO week dates and day counts (the other representations are prepared inline in dt_strfd) */
+void __prep_strfd_ywd(struct strpd_s *tgt, dt_ywd_t d)
+VERIF_CONTRACT(__CPROVER_requires(__CPROVER_is_fresh(tgt, sizeof(*tgt)) && V_YWD(d) && tgt->flags.u == 0)
+	__CPROVER_ensures(tgt->y == GY_YWD(d) && tgt->q == (int)d.y && tgt->c == (int)d.c && tgt->w == (int)d.w && tgt->flags.real_y_in_q == 1 &&
+		tgt->flags.d_dcnt_p == 0 && tgt->flags.bizda == 0 &&
+		tgt->m == __CPROVER_old(tgt->m) && tgt->d == __CPROVER_old(tgt->d))
+	__CPROVER_assigns(*tgt));
+void __prep_strfd_daisy(struct strpd_s *tgt, dt_daisy_t d)
+VERIF_CONTRACT(__CPROVER_requires(__CPROVER_is_fresh(tgt, sizeof(*tgt)) && d >= 1 && d <= S_MAX_DAISY)
+	__CPROVER_ensures(R_ymd_of((int)d, tgt->y, tgt->m, tgt->d) && tgt->flags.u == __CPROVER_old(tgt->flags.u))
+	__CPROVER_assigns(*tgt));
 
 #if !defined VERIF_NATIVE
 /* C10: a numeric date specifier never writes outside buf[0..bsz) and reports at most bsz bytes, for EVERY remaining buffer size
